@@ -10,12 +10,25 @@ use desync_verif_rt::thread;
 /// Struct that holds the currently active queue and marks it as panicked if dropped during a panic
 ///
 pub (super) struct ActiveQueue<'a> {
-    pub (super) queue: &'a JobQueue
+    pub (super) queue: &'a JobQueue,
+
+    /// True if the thread was already panicking when it started to run the queue (a Desync dropped while unwinding runs its queue on the unwinding thread)
+    pub (super) already_panicking: bool
+}
+
+impl<'a> ActiveQueue<'a> {
+    ///
+    /// Marks a queue as being run by the current thread
+    ///
+    pub (super) fn new(queue: &'a JobQueue) -> ActiveQueue<'a> {
+        ActiveQueue { queue: queue, already_panicking: thread::panicking() }
+    }
 }
 
 impl<'a> Drop for ActiveQueue<'a> {
     fn drop(&mut self) {
-        if thread::panicking() {
+        // Only a panic that started while the queue was being run means that one of its jobs panicked
+        if thread::panicking() && !self.already_panicking {
             self.queue.core.lock()
                 .map(|mut core| core.state = QueueState::Panicked)
                 .ok();
